@@ -237,7 +237,7 @@ int_t ParallelFinalize(pxgstrf_shared_t *pxgstrf_shared)
 
 int_t queue_init(queue_t *q, int_t n)
 {
-    if ( n < 1 ) return (-1);
+    if ( n < 0 ) return (-1);
 
     q->queue = (qitem_t *) SUPERLU_MALLOC(n*sizeof(qitem_t));
     q->count = 0;
